@@ -456,6 +456,10 @@ def run(ctx):
             if ctx.expired():
                 ctx.cap('BFS of file %s stopped by VERIF_BUDGET_S at depth %d' % (n, d))
                 break
+            if len(frontier) > 20000:
+                # (the largest frontier on the current tree is a few thousand states; keys that never repeat would make it explode)
+                ctx.cap('BFS of file %s stopped at depth %d: frontier of %d states does not converge' % (n, d, len(frontier)))
+                break
             rs = ctx.map_ordered(_bfs_worker, [(n, seed, h) for h in frontier], 4)
             nxt = []
             for h, r in zip(frontier, rs):
